@@ -1086,7 +1086,7 @@ def _run(ctx):
     mods = ["HitenModel.Props.C05"]
     ok = ctx.lean_build(mods)
     if ok:
-        ctx.lean_audit(mods, ["HitenModel.Props.C05", "HitenModel.Lemmas.C05", "HitenModel.Core.C05", "HitenModel.Gen.C05",
+        ctx.lean_audit(mods, ["HitenModel.Props.C05", "HitenModel.Lemmas.C05", "HitenModel.Lemmas.Mirror", "HitenModel.Core.C05", "HitenModel.Gen.C05",
                                    "HitenModel.Lemmas.REReal", "HitenModel.Core.RE"])
         if ctx.thorough():
             ctx.leanchecker(mods)
